@@ -12,7 +12,7 @@ A_DOUBLE = 'A-DOUBLE: the Kani table double /verif/hooks/table.rs implements A-H
 A_PURE = 'A-PURE: heap_size/mem_size are deterministic functions of the value; sizes change only inside mutate'
 A_EQ = 'A-EQ/A-BORROW/A-HASH: the user Eq on K is an equivalence relation (axioms keq_refl, keq_sym -- it is NOT assumed to be spec equality: Eq-equal keys may be different values with different size estimates), keys matched by one borrowed query are equivalent (matches_unique), hashing is a deterministic function of the key (hash_of)'
 A_SIZE = 'A-SIZE: estimates of simultaneously live values add up to <= usize::MAX (needed for entry_size additions and mutate pre-eviction additions)'
-A_CAP = 'A-CAP: 2*capacity() <= usize::MAX; A-HB-CAP: cap_for(n) >= n and cap_for(n) < max(2n, 8) (axiom cap_for_bounds in l2; the same bounds are PROVED for hashbrown\'s own capacity_to_buckets / bucket_mask_to_capacity, extracted from the registry source, in template hbcap; assumed: with_capacity sizes tables with these two functions)'
+A_CAP = 'A-CAP: capacity() <= cap_limit() and 8*cap_limit() <= usize::MAX, where cap_limit() is the largest capacity hashbrown can size a table for without its capacity-overflow panic (bucket counts are monotone in the capacity, so any capacity up to that of an existing table qualifies); RawTable::with_capacity(n) requires n <= cap_limit() at every call (obligation for shrink_to, clone, the constructors); A-HB-CAP: cap_for(n) >= n and cap_for(n) < max(2n, 8) (axiom cap_for_bounds in l2; the same bounds are PROVED for hashbrown\'s own capacity_to_buckets / bucket_mask_to_capacity, extracted from the registry source, in template hbcap; assumed: with_capacity sizes tables with these two functions)'
 A_ARITH = 'machine arithmetic: exact usize semantics in exec code (overflow obligations proved, not assumed); spec arithmetic is mathematical'
 A_UNSAFE = 'unsafe code: all raw-pointer code is outside Verus; in Kani it is executed symbolically within the stated bounds'
 A_MODEL = 'ptr_ent/at are uninterpreted functions of pointer values: sound while the designated entry is not modified and the table not reallocated between production and use (true in L2 by inspection; exercised by sub_* harnesses)'
